@@ -22,28 +22,110 @@ namespace Nq.Props.C09
 open Nq Nq.SmtpOut Nq.RemoteSmtp Nq.RspawnReport Nq.RemoteConnect Nq.Spec.RemoteVerdict Nq.Lemmas.RemoteSmtp Nq.Lemmas.Rspawn
 open Nq.Lemmas.RemoteConnect
 
-/-- **Verdict classes.** For every server script, the message report has the class the rules
-require (`expect`: the first decisive event wins — greeting ≠ 220 / HELO ≠ 250 → Z; MAIL, DATA,
-final-dot reply ≥ 500 → D, 400..499 → Z; every RCPT refused → D; unreadable message → Z, partial
-last line → D; any failed read or write → Z "connection died", flagged "Possible duplicate!" when it
-happens between the final flush and the reply to the dot; otherwise K), and the per-recipient reports
-are exactly the classes (`r`/`s`/`h`) the rules give, in order. -/
-theorem C09_classes (a : Args) (sc : Script) :
+/-- **Verdict classes (strict rules).** For every server script in which the failing write, if any, is
+not the final QUIT, the message report has the class the rules require (`expect`: the first decisive
+event wins — greeting ≠ 220 / HELO ≠ 250 → Z; MAIL, DATA, final-dot reply ≥ 500 → D, 400..499 → Z; every
+RCPT refused → D; unreadable message → Z, partial last line → D; any failed read or write → Z "connection
+died", flagged "Possible duplicate!" when it happens between the final flush and the reply to the dot;
+otherwise K), and the per-recipient reports are exactly the classes (`r`/`s`/`h`) the rules give, in
+order. Replies and codes are those `smtpcode()` delimits (`abstr`); for well-formed streams they are the
+line-based ones, see `C09_classes_wellformed`. The rules are strict about QUIT (a decided verdict
+stands whatever happens to the QUIT command); the excluded scripts are `C09_quit_corner`.
+(Replaces the former unconditional `C09_classes`, which was proved against rules that had the code's
+QUIT behaviour built in — `viaQuit`.) -/
+theorem C09_classes (a : Args) (sc : Script) (hq : sc.wfail ≠ some .quit) :
     verdictOK (expect (abstr a sc)).v (obsOf (smtpRun a sc)) = true ∧
     (obsOf (smtpRun a sc)).rl = (expect (abstr a sc)).rl :=
-  run_good a sc.wfail _
+  have g := run_good a sc.wfail hq (frames .d1 [] sc.stream)
+  ⟨g.1, g.2.1⟩
 
-/-- **K is sound.** The message is reported `K` only if the greeting was 220, the HELO reply 250,
-the replies to MAIL, DATA and the final dot below 400, there is one report per recipient and at least
-one of them is `r`, no write failed, and the message was read completely and ends with a newline. -/
+/-- **The QUIT corner — the code as it is (finding C09-quit-write-failure).** When the write that
+fails is the final QUIT, compare with the same script in which that write succeeds (`r0`, to which
+`C09_classes` applies, and `expect` is the same for both: `C09_rules_ignore_quit`): the recipient reports
+are the same; if `r0` says QUIT — i.e. a verdict had been decided by a reply — the run prints, instead
+of that verdict, the *unflagged* `Z… connection died. (#4.4.2)` of `dropped()` and the server does not
+get the QUIT; otherwise (connection already lost, message unreadable or partial) nothing differs. So a
+`D` (5xx reply) becomes a retry and a `K` (message accepted) becomes a redelivery. -/
+theorem C09_quit_corner (a : Args) (sc : Script) (hq : sc.wfail = some .quit) :
+    let r0 := smtpRun a { sc with wfail := none }
+    let r := smtpRun a sc
+    r.rcpt = r0.rcpt ∧
+    (if r0.quit = true then
+       r.msg = droppedRep a.host false ∧ r0.wire = r.wire ++ quitCmd ∧ r.quit = false
+     else r = r0) := by
+  have h := run_quit a (frames .d1 [] sc.stream)
+  simp only [smtpRun, hq]
+  refine ⟨h.1, ?_⟩
+  have h2 := h.2
+  split at h2
+  · rename_i hqq; simp only [hqq, if_true]; exact ⟨h2.1, h2.2.1, h2.2.2.1⟩
+  · rename_i hqq; simp only [hqq, if_false]; exact h2
+
+/-- the rules do not look at the QUIT write -/
+theorem C09_rules_ignore_quit (a : Args) (sc : Script) (hq : sc.wfail = some .quit) :
+    expect (abstr a sc) = expect (abstr a { sc with wfail := none }) := by
+  have := expect_quit (abstr a { sc with wfail := none })
+  simp only [abstr, abstrF, hq] at this ⊢
+  exact this
+
+/-- **Verdict classes, every script.** The recipient letters are always those of the rules; the message
+report has the class of the rules, or else the failing write is the QUIT, the rules had a decided
+verdict (K, Z or D) and the report is the unflagged "connection died" (`C09_quit_corner`). -/
+theorem C09_classes_all (a : Args) (sc : Script) :
+    (obsOf (smtpRun a sc)).rl = (expect (abstr a sc)).rl ∧
+    (verdictOK (expect (abstr a sc)).v (obsOf (smtpRun a sc)) = true ∨
+     (sc.wfail = some .quit ∧ (expect (abstr a sc)).v.decided = true ∧
+      (smtpRun a sc).msg = droppedRep a.host false)) :=
+  run_all a sc.wfail _
+
+/-- **Verdict classes against the independent reading of the stream.** If every complete line the
+server sends has at least three bytes before its LF and every reply starts with three digits
+(`specCodes`: lines split at LF, a `-` as 4th byte continues the reply, code = decimal value of the
+first line's digits), the message class and the recipient letters are those the rules give for *these*
+codes — nothing of the client's own framing or arithmetic is in the statement. -/
+theorem C09_classes_wellformed (a : Args) (sc : Script) (cs : List Nat) (h : specCodes sc.stream = some cs)
+    (hq : sc.wfail ≠ some .quit) :
+    let s : AScript := { codes := cs, n := a.rcpts.length, msgErr := a.msgErr,
+                         msgPartial := partialMsg a.msg (rblast a.msg).isNone, wfail := sc.wfail }
+    verdictOK (expect s).v (obsOf (smtpRun a sc)) = true ∧ (obsOf (smtpRun a sc)).rl = (expect s).rl := by
+  have hc : (abstr a sc).codes = cs := by
+    unfold specCodes at h
+    by_cases hw : wfLines sc.stream = true
+    · simp only [hw, if_true] at h
+      simp only [abstr, abstrF, frames_eq_specFrames _ hw]
+      generalize specFrames sc.stream = fs at h
+      induction fs generalizing cs with
+      | nil => simp [decCodes] at h; simp [h]
+      | cons f fs ih =>
+        simp only [decCodes] at h
+        cases hf : decCode f with
+        | none => simp [hf] at h
+        | some c =>
+          cases hfs : decCodes fs with
+          | none => simp [hf, hfs] at h
+          | some cs' =>
+            simp [hf, hfs] at h
+            simp [← h, codeNat_decimal f c hf, ih cs' hfs]
+    · simp [hw] at h
+  have e : abstr a sc = { codes := cs, n := a.rcpts.length, msgErr := a.msgErr,
+                          msgPartial := partialMsg a.msg (rblast a.msg).isNone, wfail := sc.wfail } := by
+    rw [partialMsg_eq, ← hc]; rfl
+  simp only
+  rw [← e]
+  exact C09_classes a sc hq
+
+/-- **K is sound (every script).** The message is reported `K` only if the greeting was 220, the HELO
+reply 250, the replies to MAIL, DATA and the final dot below 400, there is one report per recipient and
+at least one of them is `r`, no write up to and including the final flush failed, and the message was
+read completely and ends with a newline. -/
 theorem C09_K_sound (a : Args) (sc : Script) : kSound (abstr a sc) (obsOf (smtpRun a sc)) = true :=
-  kSound_of_good _ _ (run_good a sc.wfail _)
+  kSound_run a sc.wfail _
 
-/-- **Recipient reports in argument order.** Never more reports than recipient arguments; the `i`-th
-report is the class of the reply to the `i`-th RCPT (reply number `3+i` of the conversation); there are
-none unless greeting, HELO and MAIL were accepted. -/
+/-- **Recipient reports in argument order (every script).** Never more reports than recipient
+arguments; the `i`-th report is the class of the reply to the `i`-th RCPT (reply number `3+i` of the
+conversation); there are none unless greeting, HELO and MAIL were accepted. -/
 theorem C09_rcpt_order (a : Args) (sc : Script) : rcptOrder (abstr a sc) (obsOf (smtpRun a sc)) = true :=
-  rcptOrder_of_good _ _ (run_good a sc.wfail _)
+  rcptOrder_of_good _ _ (run_all a sc.wfail _).1
 
 /-- **Commands in argument order.** What the server receives is — apart from a final QUIT — a prefix
 of HELO, MAIL FROM, one RCPT TO per recipient argument *in argument order*, DATA and the encoded
@@ -60,9 +142,10 @@ accepted, the message complete, and then either the final write fails or the str
 complete reply), the report is `Z…` and contains "Possible duplicate! " — never `K`. -/
 theorem C09_possible_duplicate (a : Args) (sc : Script) (h : (expect (abstr a sc)).v = .lost true) :
     headB (smtpRun a sc).msg = cZ ∧ hasInfix dupMark (smtpRun a sc).msg = true := by
-  have := (C09_classes a sc).1
-  rw [h] at this
-  simpa [verdictOK, obsOf] using this
+  rcases (C09_classes_all a sc).2 with this | ⟨_, hd, _⟩
+  · rw [h] at this
+    simpa [verdictOK, obsOf] using this
+  · rw [h] at hd; exact absurd hd (by decide)
 
 /-- **Multi-line reply parsing.** If every complete line the server sends has at least three bytes
 before its LF, `smtpcode()` delimits exactly the replies of the line-based reading (lines whose 4th
@@ -98,17 +181,13 @@ theorem C09_spec_codes (a : Args) (sc : Script) (cs : List Nat) (h : specCodes s
           simp [← h, codeNat_decimal f c hf, ih cs' hfs]
   · simp [hw] at h
 
-/-! ### the predicates the driver evaluates on the implementation (lenient at the QUIT corner)
+/-! ### the wire predicate as the driver evaluates it
 
-When the failing write is the final QUIT the oracle accepts either the current behaviour ("connection
-died") or the verdict that had already been decided; see `Nq.Spec.RemoteVerdict` and notes/C09.md,
-observation 1. For the model these follow from the strict theorems above. -/
-
-theorem C09_classes_q (a : Args) (sc : Script) : verdictOKq (abstr a sc) (obsOf (smtpRun a sc)) = true := by
-  simp [verdictOKq, (C09_classes a sc).1]
-
-theorem C09_K_sound_q (a : Args) (sc : Script) : kSoundQ (abstr a sc) (obsOf (smtpRun a sc)) = true := by
-  simp [kSoundQ, C09_K_sound a sc]
+`verdictOK (expect …)`, `kSound`, `rcptOrder` are evaluated by the driver exactly as stated above (the
+former lenient forms `C09_classes_q` / `C09_K_sound_q`, which accepted "connection died" in place of a
+decided verdict when the QUIT write failed, are removed together with `verdictOKq`/`kSoundQ`). Only the
+wire predicate has a clause for a failing QUIT write, because there the *property* says something
+different: a `K` then needs no QUIT on the wire. For the code as it is this is a corollary. -/
 
 theorem C09_wire_order_q (a : Args) (sc : Script) (enc : Bytes) (henc : ∀ e, rblast a.msg = some e → e = enc) (qf : Bool) :
     wireOrderQ a enc (smtpRun a sc).wire (obsOf (smtpRun a sc)) qf = true := by
@@ -219,79 +298,146 @@ theorem C09_loss_never_K (a : Args) (sc : Script) (h : (abstr a sc).codes.length
   rw [this] at h4
   simp [lt400] at h4
 
-/-! ### the class rules, spelled out (`expect` on scripts of a given form) -/
+/-! ### the class rules, spelled out (`expect` on scripts of a given form)
+
+`s.codes = 220 :: 250 :: m :: (rc ++ rest)` with `rc.length = s.n`: greeting, HELO reply, MAIL reply,
+one reply per recipient, then the replies to DATA and to the final dot. `hw`: no write fails, or only
+the QUIT (which the rules ignore). -/
 
 /-- greeting other than 220: temporary failure, no recipient reports -/
 theorem C09_rule_greeting (s : AScript) (g : Nat) (rest : List Nat) (hc : s.codes = g :: rest) (hg : g ≠ 220) :
-    (expect s).rl = [] ∧ ((expect s).v = .Z ∨ (expect s).v = .lost false) := by
-  unfold expect viaQuit
-  by_cases hq : s.wfail = some .quit <;> simp [hc, hg, hq]
+    (expect s).rl = [] ∧ (expect s).v = .Z := by
+  unfold expect
+  simp [hc, hg]
 
-/-- HELO reply other than 250: temporary failure -/
+/-- HELO reply other than 250: temporary failure (`Z`, or "connection died" if the HELO write failed) -/
 theorem C09_rule_helo (s : AScript) (h : Nat) (rest : List Nat) (hc : s.codes = 220 :: h :: rest) (hh : h ≠ 250) :
-    (expect s).rl = [] ∧ ((expect s).v = .Z ∨ (expect s).v = .lost false) := by
-  unfold expect viaQuit
-  by_cases hq : s.wfail = some .quit <;> by_cases hw : s.wfail = some .helo <;> simp [hc, hh, hq, hw]
+    (expect s).rl = [] ∧ (expect s).v = (if s.wfail = some .helo then .lost false else .Z) := by
+  unfold expect
+  by_cases hw : s.wfail = some .helo <;> simp [hc, hh, hw]
 
-/-- MAIL reply: ≥ 500 permanent, 400..499 temporary (when no write fails) -/
+/-- MAIL reply: ≥ 500 permanent, 400..499 temporary -/
 theorem C09_rule_mail (s : AScript) (m : Nat) (rest : List Nat) (hc : s.codes = 220 :: 250 :: m :: rest)
-    (hw : s.wfail = none) (hm : m ≥ 400) :
+    (hw : s.wfail = none ∨ s.wfail = some .quit) (hm : m ≥ 400) :
     (expect s).rl = [] ∧ (expect s).v = (if m ≥ 500 then .D else .Z) := by
-  unfold expect viaQuit
+  unfold expect
   by_cases h5 : m ≥ 500
-  · simp [hc, hw, h5]
-  · simp [hc, hw, h5, hm]
+  · rcases hw with hw | hw <;> simp [hc, hw, h5]
+  · rcases hw with hw | hw <;> simp [hc, hw, h5, hm]
 
-/-- every recipient refused: permanent failure, DATA is not sent -/
-theorem C09_rule_all_refused (s : AScript) (rl : List Byte) (cs : List Nat) (hw : s.wfail = none) :
-    (expData s rl false cs).v = .D := by
-  simp [expData, viaQuit, hw]
+/-- every recipient refused (each RCPT reply ≥ 400): permanent failure, each recipient reported `s` or
+`h` by its own reply, and nothing of the rest of the script (no DATA reply) matters -/
+theorem C09_rule_all_refused (s : AScript) (m : Nat) (rc rest : List Nat)
+    (hc : s.codes = 220 :: 250 :: m :: (rc ++ rest)) (hm : m < 400) (hn : rc.length = s.n)
+    (hr : ∀ c ∈ rc, c ≥ 400) (hw : s.wfail = none ∨ s.wfail = some .quit) :
+    (expect s).v = .D ∧ (expect s).rl = rc.map clsLetter := by
+  have hany : rc.any (fun c => decide (c < 400)) = false := by
+    rw [List.any_eq_false]; intro c hcm; have := hr c hcm; simp; omega
+  rw [expect_rcpts s m rc rest hc hm hn (by rcases hw with h | h <;> simp [h]) (by rcases hw with h | h <;> simp [h])
+        (by intro j; rcases hw with h | h <;> simp [h]), hany]
+  simp [expData]
 
-/-- DATA reply: ≥ 500 permanent, 400..499 temporary -/
-theorem C09_rule_data (s : AScript) (rl : List Byte) (d : Nat) (cs : List Nat) (hw : s.wfail = none) (hd : d ≥ 400) :
-    (expData s rl true (d :: cs)).v = (if d ≥ 500 then .D else .Z) := by
+/-- DATA reply (some recipient accepted): ≥ 500 permanent, 400..499 temporary -/
+theorem C09_rule_data (s : AScript) (m d : Nat) (rc rest : List Nat)
+    (hc : s.codes = 220 :: 250 :: m :: (rc ++ d :: rest)) (hm : m < 400) (hn : rc.length = s.n)
+    (hr : ∃ c ∈ rc, c < 400) (hw : s.wfail = none ∨ s.wfail = some .quit) (hd : d ≥ 400) :
+    (expect s).v = (if d ≥ 500 then .D else .Z) ∧ (expect s).rl = rc.map clsLetter := by
+  have hany : rc.any (fun c => decide (c < 400)) = true := by
+    obtain ⟨c, h1, h2⟩ := hr; rw [List.any_eq_true]; exact ⟨c, h1, by simpa using h2⟩
+  rw [expect_rcpts s m rc (d :: rest) hc hm hn (by rcases hw with h | h <;> simp [h]) (by rcases hw with h | h <;> simp [h])
+        (by intro j; rcases hw with h | h <;> simp [h]), hany]
   by_cases h5 : d ≥ 500
-  · simp [expData, viaQuit, hw, h5]
-  · simp [expData, viaQuit, hw, h5, hd]
+  · rcases hw with hw | hw <;> simp [expData, hw, h5]
+  · rcases hw with hw | hw <;> simp [expData, hw, h5, hd]
 
-/-- reply to the final dot: ≥ 500 permanent, 400..499 temporary, below 400 success -/
-theorem C09_rule_final (s : AScript) (rl : List Byte) (d f : Nat) (cs : List Nat) (hw : s.wfail = none)
+/-- reply to the final dot (DATA accepted, message complete): ≥ 500 permanent, 400..499 temporary,
+below 400 success -/
+theorem C09_rule_final (s : AScript) (m d f : Nat) (rc rest : List Nat)
+    (hc : s.codes = 220 :: 250 :: m :: (rc ++ d :: f :: rest)) (hm : m < 400) (hn : rc.length = s.n)
+    (hr : ∃ c ∈ rc, c < 400) (hw : s.wfail = none ∨ s.wfail = some .quit)
     (hd : d < 400) (he : s.msgErr = false) (hp : s.msgPartial = false) :
-    (expData s rl true (d :: f :: cs)).v = (if f ≥ 500 then .D else if f ≥ 400 then .Z else .K) := by
+    (expect s).v = (if f ≥ 500 then .D else if f ≥ 400 then .Z else .K) ∧ (expect s).rl = rc.map clsLetter := by
+  have hany : rc.any (fun c => decide (c < 400)) = true := by
+    obtain ⟨c, h1, h2⟩ := hr; rw [List.any_eq_true]; exact ⟨c, h1, by simpa using h2⟩
+  rw [expect_rcpts s m rc (d :: f :: rest) hc hm hn (by rcases hw with h | h <;> simp [h]) (by rcases hw with h | h <;> simp [h])
+        (by intro j; rcases hw with h | h <;> simp [h]), hany]
   have h5 : ¬ d ≥ 500 := by omega
   have h4 : ¬ d ≥ 400 := by omega
   by_cases g5 : f ≥ 500
-  · simp [expData, viaQuit, hw, h5, h4, he, hp, g5]
+  · rcases hw with hw | hw <;> simp [expData, hw, h5, h4, he, hp, g5]
   · by_cases g4 : f ≥ 400
-    · simp [expData, viaQuit, hw, h5, h4, he, hp, g5, g4]
-    · simp [expData, viaQuit, hw, h5, h4, he, hp, g5, g4]
+    · rcases hw with hw | hw <;> simp [expData, hw, h5, h4, he, hp, g5, g4]
+    · rcases hw with hw | hw <;> simp [expData, hw, h5, h4, he, hp, g5, g4]
 
-/-- the server goes away: before the final flush → plain temporary failure; after DATA was accepted and
-the message sent, with no (complete) reply to the dot → temporary failure flagged as possible duplicate -/
-theorem C09_rule_lost (s : AScript) (rl : List Byte) (d : Nat) (hw : s.wfail = none)
-    (hd : d < 400) (he : s.msgErr = false) (hp : s.msgPartial = false) :
-    (expData s rl true []).v = .lost false ∧ (expData s rl true [d]).v = .lost true := by
+/-- the message file (DATA accepted): unreadable → temporary, partial last line → permanent -/
+theorem C09_rule_message (s : AScript) (m d : Nat) (rc rest : List Nat)
+    (hc : s.codes = 220 :: 250 :: m :: (rc ++ d :: rest)) (hm : m < 400) (hn : rc.length = s.n)
+    (hr : ∃ c ∈ rc, c < 400) (hw : s.wfail = none ∨ s.wfail = some .quit) (hd : d < 400) :
+    (s.msgErr = true → (expect s).v = .Z) ∧ (s.msgErr = false → s.msgPartial = true → (expect s).v = .D) := by
+  have hany : rc.any (fun c => decide (c < 400)) = true := by
+    obtain ⟨c, h1, h2⟩ := hr; rw [List.any_eq_true]; exact ⟨c, h1, by simpa using h2⟩
+  rw [expect_rcpts s m rc (d :: rest) hc hm hn (by rcases hw with h | h <;> simp [h]) (by rcases hw with h | h <;> simp [h])
+        (by intro j; rcases hw with h | h <;> simp [h]), hany]
   have h5 : ¬ d ≥ 500 := by omega
   have h4 : ¬ d ≥ 400 := by omega
-  simp [expData, hw, h5, h4, he, hp]
+  constructor
+  · intro he; rcases hw with hw | hw <;> simp [expData, hw, h5, h4, he]
+  · intro he hp; rcases hw with hw | hw <;> simp [expData, hw, h5, h4, he, hp]
 
-/-- a failing write: HELO…DATA and buffer-full flushes of the body → plain temporary failure; the final
-flush → flagged; QUIT → plain temporary failure *whatever had been decided* (see notes/C09.md) -/
-theorem C09_rule_wfail (s : AScript) (rl : List Byte) (d f : Nat) (cs : List Nat)
+/-- the server goes away (no failing write): with no reply to DATA → plain temporary failure; after DATA
+was accepted and the message sent, with no (complete) reply to the dot → temporary failure flagged as a
+possible duplicate -/
+theorem C09_rule_lost (s : AScript) (m d : Nat) (rc : List Nat) (hm : m < 400) (hn : rc.length = s.n)
+    (hr : ∃ c ∈ rc, c < 400) (hw : s.wfail = none ∨ s.wfail = some .quit)
     (hd : d < 400) (he : s.msgErr = false) (hp : s.msgPartial = false) :
-    (s.wfail = some .data → (expData s rl true (d :: f :: cs)).v = .lost false) ∧
-    (s.wfail = some .body → (expData s rl true (d :: f :: cs)).v = .lost false) ∧
-    (s.wfail = some .final → (expData s rl true (d :: f :: cs)).v = .lost true) ∧
-    (s.wfail = some .quit → (expData s rl true (d :: f :: cs)).v = .lost false) := by
+    (s.codes = 220 :: 250 :: m :: (rc ++ []) → (expect s).v = .lost false) ∧
+    (s.codes = 220 :: 250 :: m :: (rc ++ [d]) → (expect s).v = .lost true) := by
+  have hany : rc.any (fun c => decide (c < 400)) = true := by
+    obtain ⟨c, h1, h2⟩ := hr; rw [List.any_eq_true]; exact ⟨c, h1, by simpa using h2⟩
   have h5 : ¬ d ≥ 500 := by omega
   have h4 : ¬ d ≥ 400 := by omega
+  constructor
+  · intro hc
+    rw [expect_rcpts s m rc [] hc hm hn (by rcases hw with h | h <;> simp [h]) (by rcases hw with h | h <;> simp [h])
+          (by intro j; rcases hw with h | h <;> simp [h]), hany]
+    rcases hw with hw | hw <;> simp [expData, hw]
+  · intro hc
+    rw [expect_rcpts s m rc [d] hc hm hn (by rcases hw with h | h <;> simp [h]) (by rcases hw with h | h <;> simp [h])
+          (by intro j; rcases hw with h | h <;> simp [h]), hany]
+    rcases hw with hw | hw <;> simp [expData, hw, h5, h4, he, hp]
+
+/-- the server goes away earlier: a script that stops before the greeting, the HELO reply, the MAIL
+reply or the reply to some RCPT is a plain temporary failure; the recipients answered so far keep
+their classes -/
+theorem C09_rule_lost_early (s : AScript) (hw : s.wfail = none ∨ s.wfail = some .quit) :
+    (s.codes = [] → (expect s).v = .lost false) ∧ (s.codes = [220] → (expect s).v = .lost false) ∧
+    (s.codes = [220, 250] → (expect s).v = .lost false) := by
+  refine ⟨?_, ?_, ?_⟩ <;> intro hc <;> unfold expect <;> rcases hw with hw | hw <;> simp [hc, hw]
+
+/-- a failing write in the DATA phase (everything accepted so far, message complete): the DATA command
+and buffer-full flushes of the body → plain temporary failure; the write that carries the end of the
+message → flagged; the QUIT → *no effect*: the verdict is the one the reply to the dot decides -/
+theorem C09_rule_wfail (s : AScript) (m d f : Nat) (rc rest : List Nat)
+    (hc : s.codes = 220 :: 250 :: m :: (rc ++ d :: f :: rest)) (hm : m < 400) (hn : rc.length = s.n)
+    (hr : ∃ c ∈ rc, c < 400) (hd : d < 400) (he : s.msgErr = false) (hp : s.msgPartial = false) :
+    (s.wfail = some .data → (expect s).v = .lost false) ∧
+    (s.wfail = some .body → (expect s).v = .lost false) ∧
+    (s.wfail = some .final → (expect s).v = .lost true) ∧
+    (s.wfail = some .quit → (expect s).v = (if f ≥ 500 then .D else if f ≥ 400 then .Z else .K)) := by
+  have hany : rc.any (fun c => decide (c < 400)) = true := by
+    obtain ⟨c, h1, h2⟩ := hr; rw [List.any_eq_true]; exact ⟨c, h1, by simpa using h2⟩
+  have h5 : ¬ d ≥ 500 := by omega
+  have h4 : ¬ d ≥ 400 := by omega
+  have key : ∀ w, s.wfail = some w → w = .data ∨ w = .body ∨ w = .final ∨ w = .quit →
+      expect s = expData s (rc.map clsLetter) true (d :: f :: rest) := by
+    intro w hw hcase
+    rw [expect_rcpts s m rc (d :: f :: rest) hc hm hn (by rcases hcase with h | h | h | h <;> simp [hw, h])
+          (by rcases hcase with h | h | h | h <;> simp [hw, h]) (by intro j; rcases hcase with h | h | h | h <;> simp [hw, h]), hany]
   refine ⟨?_, ?_, ?_, ?_⟩ <;> intro hw
-  · simp [expData, hw]
-  · simp [expData, hw, h5, h4]
-  · simp [expData, hw, h5, h4, he, hp]
-  · by_cases g5 : f ≥ 500
-    · simp [expData, viaQuit, hw, h5, h4, he, hp, g5]
-    · by_cases g4 : f ≥ 400 <;> simp [expData, viaQuit, hw, h5, h4, he, hp, g5, g4]
+  · rw [key _ hw (Or.inl rfl)]; simp [expData, hw]
+  · rw [key _ hw (Or.inr (Or.inl rfl))]; simp [expData, hw, h5, h4]
+  · rw [key _ hw (Or.inr (Or.inr (Or.inl rfl)))]; simp [expData, hw, h5, h4, he, hp]
+  · exact (C09_rule_final s m d f rc rest hc hm hn hr (Or.inr hw) hd he hp).1
 
 /-! ### Non-vacuity -/
 
@@ -316,8 +462,27 @@ set_option maxRecDepth 20000 in
 example : render (smtpRun exArgs ⟨exCut, none⟩) =
     lit "h192.0.2.25 does not like recipient.\nRemote host said: 550-no\n550 such user\n" ++ [0] ++ lit "r" ++ [0] ++
     lit "ZConnected to 192.0.2.25 but connection died. Possible duplicate! (#4.4.2)\n" ++ [0] := by decide
-/-- the QUIT write fails after the message was accepted: reported as a (plain) lost connection -/
-example : (expect (abstr exArgs ⟨exStream, some .quit⟩)).v = .lost false := by decide
+/-- finding C09-quit-write-failure, on the model of the code as it is: the message was accepted (the
+rules say `K`) and then the QUIT write fails — the report is the unflagged "connection died" (the
+message will be sent again); likewise a 550 to MAIL (rules: `D`) is turned into a retry -/
+example : (expect (abstr exArgs ⟨exStream, some .quit⟩)).v = .K := by decide
+set_option maxRecDepth 20000 in
+example : (smtpRun exArgs ⟨exStream, some .quit⟩).msg = lit "ZConnected to 192.0.2.25 but connection died. (#4.4.2)\n" := by decide
+example : (expect (abstr exArgs ⟨lit "220 a\r\n250 b\r\n550 no\r\n", some .quit⟩)).v = .D := by decide
+set_option maxRecDepth 20000 in
+example : (smtpRun exArgs ⟨lit "220 a\r\n250 b\r\n550 no\r\n", some .quit⟩).msg =
+    lit "ZConnected to 192.0.2.25 but connection died. (#4.4.2)\n" := by decide
+/-- the hypotheses of `C09_classes_wellformed` and of the lifted rules are satisfiable -/
+example : partialMsg exArgs.msg (rblast exArgs.msg).isNone = false := by decide
+example : (expect { codes := 220 :: 250 :: 250 :: ([550, 250] ++ [354, 250]), n := 2, msgErr := false, msgPartial := false,
+                    wfail := some .quit }).v = .K := by decide
+/-- `critWrite`: all commands received, the whole encoded message in one write: that write is critical;
+a write of its first 6 bytes (without the last byte of the terminator) is not -/
+example : critWrite exArgs (lit "hi\r\n.\r\n") (fullCmds exArgs) (lit "hi\r\n.\r\n") = true ∧
+          critWrite exArgs (lit "hi\r\n.\r\n") (fullCmds exArgs) (lit "hi\r\n.\r") = false := by decide
+example : hasAddr (lit "10.0.0.1") none (lit "ZConnected to 110.0.0.1 but") = false ∧
+          hasAddr (lit "10.0.0.1") none (lit "DGiving up on 10.0.0.1.\n") = true ∧
+          hasAddr (lit "10.0.0.1") none (lit "h10.0.0.15 does") = false := by decide
 /-- a reply that does not start with digits still gets a number: "1?0" counts as 250 -/
 example : codeNat (lit "1?0 x\n") = 250 := by decide
 /-- ... and a negative value wraps to a huge one (permanent failure) -/
